@@ -269,13 +269,16 @@ Section DecodedFacts.
     - destruct (tc_wf_inv_fixed _ _ _ Hw) as [Hl Hwc]. cbn [tc_no_fixed_point] in Hnf. cbn [decodeABIElement].
       destruct (isDynamicType (TCFixedArr len ch k)).
       + destruct (decodeABILength block hp) as [ho| |]; cbn [bind]; try discriminate.
+        destruct ((len >? 0) && ((len - 1) * 32 >=? zlen block - (hs + ho))); [discriminate|].
         destruct (len <? 0); [discriminate|].
         unfold walkDynamicChildArrayABIBytes_rep.
         destruct (loop_elems (decodeABIElement block ch (hs + ho)) len (hs + ho)) as [[rd xs]| |] eqn:El; cbn [bind]; try discriminate.
         intros E; injection E as _ <-.
         destruct (loop_elems_Forall (facts ch) _ _ _ _ _ (fun pos k0 y Hy => IH Hwc Hnf _ _ _ _ Hy) El) as [Hf Hn].
         apply (facts_array _ ch); [right; exists len, k; auto|exact Hf].
-      + unfold decodeABIFixedArrayBytes. destruct (len <? 0); [discriminate|].
+      + unfold decodeABIFixedArrayBytes.
+        destruct ((len >? 0) && occupiesHeadBytes ch && ((len - 1) * 32 >=? zlen block - hp)); [discriminate|].
+        destruct (len <? 0); [discriminate|].
         destruct (loop_elems (decodeABIElement block ch hs) len hp) as [[rd xs]| |] eqn:El; cbn [bind]; try discriminate.
         intros E; injection E as _ <-.
         destruct (loop_elems_Forall (facts ch) _ _ _ _ _ (fun pos k0 y Hy => IH Hwc Hnf _ _ _ _ Hy) El) as [Hf Hn].
